@@ -330,6 +330,9 @@ func (f *frame) contractCall(callee *ssa.Function, spec *FuncSpec, args []Val, i
 		tp := vc.fresh(f.prefix+"top_call", "Int")
 		vc.assert(App(">=", tp, pre.Top))
 		st.Top = tp
+		if pats == nil {
+			pats = []modPat{} // 'assigns nothing': no heap was havocked, nothing to re-assume
+		}
 		vc.assertHeapWF(st, pats)
 	} else {
 		vc.note("contract of %s has no assigns clause: caller %s havocs all heaps", name, FuncName(f.fn))
